@@ -264,8 +264,8 @@ def wb_cases(tier):
                 for form in ('cell', 'range', 'name', 'spill', 'spillsum', 'col'):
                     if kind == 'numtext' and form in ('range', 'col', 'spillsum'):
                         continue
-                    if form == 'col' and (len(shape) > 1 or (q and kind not in ('text', 'bool', 'blank', 'error'))):
-                        continue    # numeric text inside a referenced range under SUM: not fixed by the statements (DESIGN 3.1)
+                    if form == 'col' and (len(shape) > 1 or kind == 'etext' or (q and kind not in ('text', 'bool', 'blank', 'error'))):
+                        continue    # (whole columns go through the file path, where an empty-text constant cannot be stored: openpyxl writes no cell)    # numeric text inside a referenced range under SUM: not fixed by the statements (DESIGN 3.1)
                     forms = [[form if x == i else 'cell' for x in d] for d in shape]
                     paths = ['dict', 'file'] if (form in ('cell', 'col') and kind != 'etext') else ['dict']
                     yield {'k': 'wb', 'shape': shape, 'forms': forms, 'kinds': {str(i): kind}, 'paths': paths}
